@@ -204,3 +204,70 @@ romberg = Fn(I + 'romberg', ret='res', level='L0',
 UNITS.append(Unit('C07_romberg', 'C07', [romberg], use=core.core_stubs(), spec=SPEC + ROM_SPEC, preludes=PRE, broadcast=BC, level='L0', types=core.TYPES, type_spec=core.TYPE_SPEC, rlimit=100,
                   notes='romberg returns a diagonal entry of a tableau whose entries (n,m), m >= 1, are the Richardson extrapolation of their left and upper-left neighbours with factor 4^m - 1; '
                         'the early exit can only return a level >= 2 (or the last level); the first column (refined trapezoid sums of the caller-supplied integrand) is left unconstrained'))
+
+# ---------------------------------------------------------------- quad5: the 5-pair symmetric Gauss-Legendre sum on a caller-supplied integrand
+QUAD_SPEC = r"""
+/// the integrand, whatever it computes, returns g(x)
+pub open spec fn is_graph<F: Fn(f64) -> f64>(f: F, g: spec_fn(real) -> real) -> bool { forall|x: f64, y: f64| f.ensures((x,), y) ==> rv(y) == g(rv(x)) }
+/// sum over the first k table pairs of  w_i * (g(xm + xr n_i) + g(xm - xr n_i))
+pub open spec fn gl5(g: spec_fn(real) -> real, xm: real, xr: real, k: int) -> real decreases k
+{ if k <= 0 { 0real } else { gl5(g, xm, xr, k - 1) + rv(k_GAUSS_QUAD_WEIGHTS()[k - 1]) * (g(xm + xr * rv(k_GAUSS_QUAD_NODES()[k - 1])) + g(xm - xr * rv(k_GAUSS_QUAD_NODES()[k - 1]))) } }
+/// the value quad5 returns for an integrand with graph g
+pub open spec fn quad5_value(g: spec_fn(real) -> real, a: real, b: real) -> real { gl5(g, (b + a) / 2real, (b - a) / 2real, 5) * ((b - a) / 2real) }
+/// the node pairs are symmetric about the midpoint: reversing the half-width leaves the sum unchanged ...
+pub proof fn lemma_gl5_symmetric(g: spec_fn(real) -> real, xm: real, xr: real, k: int)
+    ensures gl5(g, xm, -xr, k) == gl5(g, xm, xr, k) decreases k
+{
+    if k > 0 {
+        lemma_gl5_symmetric(g, xm, xr, k - 1);
+        let n = rv(k_GAUSS_QUAD_NODES()[k - 1]);
+        assert(xm + (-xr) * n == xm - xr * n) by(nonlinear_arith);
+        assert(xm - (-xr) * n == xm + xr * n) by(nonlinear_arith);
+    }
+}
+/// ... so swapping the limits changes the sign of the result (property C07)
+pub proof fn lemma_quad5_swap(g: spec_fn(real) -> real, a: real, b: real)
+    ensures quad5_value(g, b, a) == -quad5_value(g, a, b)
+{
+    let xm = (b + a) / 2real; let xr = (b - a) / 2real;
+    assert((a + b) / 2real == xm); assert((a - b) / 2real == -xr);
+    lemma_gl5_symmetric(g, xm, xr, 5);
+    let s = gl5(g, xm, xr, 5);
+    assert(s * (-xr) == -(s * xr)) by(nonlinear_arith);
+}
+/// the rule is linear in the integrand (property C07): gh = al g + be h pointwise
+pub proof fn lemma_gl5_linear(g: spec_fn(real) -> real, h: spec_fn(real) -> real, gh: spec_fn(real) -> real, al: real, be: real, xm: real, xr: real, k: int)
+    requires forall|x: real| #[trigger] gh(x) == al * g(x) + be * h(x)
+    ensures gl5(gh, xm, xr, k) == al * gl5(g, xm, xr, k) + be * gl5(h, xm, xr, k) decreases k
+{
+    if k > 0 {
+        lemma_gl5_linear(g, h, gh, al, be, xm, xr, k - 1);
+        let w = rv(k_GAUSS_QUAD_WEIGHTS()[k - 1]); let n = rv(k_GAUSS_QUAD_NODES()[k - 1]);
+        let p = xm + xr * n; let q = xm - xr * n;
+        let gp = g(p); let gq = g(q); let hp = h(p); let hq = h(q);
+        assert(gh(p) == al * gp + be * hp); assert(gh(q) == al * gq + be * hq);
+        let s1 = gl5(g, xm, xr, k - 1); let s2 = gl5(h, xm, xr, k - 1);
+        nra_gl5_lin(al, be, s1, s2, w, gp, gq, hp, hq);
+    } else {
+        nra_gl5_lin0(al, be);
+    }
+}
+"""
+QUAD_NRA = [
+    Lemma('nra_gl5_lin', 'al be s1 s2 w gp gq hp hq', [],
+          ['(= (+ (+ (* al s1) (* be s2)) (* w (+ (+ (* al gp) (* be hp)) (+ (* al gq) (* be hq))))) (+ (* al (+ s1 (* w (+ gp gq)))) (* be (+ s2 (* w (+ hp hq))))))']),
+    Lemma('nra_gl5_lin0', 'al be', [], ['(= (+ (* al 0) (* be 0)) 0)']),
+]
+quad5 = Fn(I + 'quad5', ret='r', level='L1',
+           requires=['C07.quad5.total:: forall|x: f64| f.requires((x,))'],
+           ensures=['C07.quad5.rule:: forall|g: spec_fn(real) -> real| #[trigger] is_graph(f, g) ==> rv(r) == quad5_value(g, rv(a), rv(b))'],
+           rewrites=[(r'(?s)\(0\.\.5\)\.map\(\|i\|\s*(\{.*?\})\)\.sum::<f64>\(\)', r'({ let mut acc_ = 0.; for i in 0..5 { acc_ = acc_ + (\1); } acc_ })',
+                      'R37: `(A..B).map(|i| E).sum::<f64>()` is the in-order sum of E over i = A..B, written as its defining loop', 're')],
+           loops={1: {'invariant': ['forall|x: f64| f.requires((x,))',
+                                    'C07.quad5.partial:: forall|g: spec_fn(real) -> real| #[trigger] is_graph(f, g) ==> rv(acc_) == gl5(g, rv(xm), rv(xr), i as int)'],
+                      'body_ghost': 'let ghost pre_acc = acc_;',
+                      'body_end': ('assert forall|g: spec_fn(real) -> real| #[trigger] is_graph(f, g) implies rv(acc_) == gl5(g, rv(xm), rv(xr), i + 1) by { '
+                                   'assert(rv(pre_acc) == gl5(g, rv(xm), rv(xr), i as int)); }')}})
+UNITS.append(Unit('C07_quad5', 'C07', [quad5], spec=SPEC + QUAD_SPEC, nra=QUAD_NRA, preludes=PRE, broadcast=BC, level='L1', types=core.TYPES, type_spec=core.TYPE_SPEC,
+                  notes='quad5 returns half the width times the symmetric 5-pair weighted sum of the integrand about the midpoint, with the nodes and weights of the tables; '
+                        'linearity in the integrand and sign reversal under swapped limits follow as lemmas over that sum; polynomial exactness of the tables is the moment-equation check'))
